@@ -947,6 +947,13 @@ class Resolver:
                             if isinstance(ce, ast.Call) and isinstance(ce.func, (ast.Name, ast.Attribute)):
                                 cn = self.index.canon(ce.func, ce._module)
                                 ext = cn is not None and not cn.startswith("gwf.")
+                                # a generator function of the package decorated with contextlib.contextmanager: entering and leaving the block runs ITS body
+                                # (reached through the call itself), not the __enter__/__exit__ of some class
+                                fo = self.index.lookup(cn) if cn else None
+                                if isinstance(fo, FuncInfo) and any((self.index.canon(d.func if isinstance(d, ast.Call) else d, fo.module) or "") in (
+                                        "contextlib.contextmanager", "contextlib.asynccontextmanager") for d in getattr(fo.node, "decorator_list", [])
+                                        if isinstance(d.func if isinstance(d, ast.Call) else d, (ast.Name, ast.Attribute))):
+                                    ext = True
                             if not ext:
                                 for mn in ("__enter__", "__exit__"):
                                     targets.extend(self.index.methods_named(mn))
